@@ -26,6 +26,7 @@ import (
 	"reduction.dev/reduction/proto/snapshotpb"
 	"reduction.dev/reduction/proto/workerpb"
 	"reduction.dev/reduction/workers/operator"
+	"reduction.dev/reduction-protocol/handlerpb"
 	"verif/harness/lib"
 )
 
@@ -44,8 +45,31 @@ func (o c06Own) ExclusivelyOwnsTable(string, []byte, []byte) (bool, error) {
 }
 
 type c06Inst struct {
-	db  *dkv.DB
-	own c06Own
+	db     *dkv.DB
+	own    c06Own
+	rg     partitioning.KeyGroupRange
+	states map[int]*operator.KeyedStateStore // by key-group count (as Operator.HandleDeploy builds them)
+	timers map[int]*operator.TimerStore
+}
+
+// the operator's own stores over the instance's database, built as HandleDeploy does
+func (in *c06Inst) stateStore(kgc int) *operator.KeyedStateStore {
+	if in.states[kgc] == nil {
+		in.states[kgc] = operator.NewKeyedStateStore(in.db, partitioning.NewKeySpace(kgc, 1))
+	}
+	return in.states[kgc]
+}
+
+func (in *c06Inst) timerStore(kgc int) *operator.TimerStore {
+	if in.timers[kgc] == nil {
+		in.timers[kgc] = operator.NewTimerStore(in.db, partitioning.NewKeySpace(kgc, 1), in.rg, 1<<30)
+	}
+	return in.timers[kgc]
+}
+
+// routed reports whether the router would deliver the subject key to this operator (its key group is in its range)
+func (in *c06Inst) routed(kgc int, subj []byte) bool {
+	return in.own.OwnsKey(in.stateStore(kgc).VerifEncodeSubjectKey(subj))
 }
 
 type c06World struct {
@@ -219,19 +243,23 @@ func (w *c06World) newDB(id int, lo, hi, mem, target int, cfg c07Cfg, handles []
 	if err := db.Start(handles); err != nil {
 		panic(err)
 	}
-	in := &c06Inst{db: db, own: own}
+	c06Wait(db)
+	in := &c06Inst{db: db, own: own, rg: partitioning.KeyGroupRange{Start: lo, End: hi},
+		states: map[int]*operator.KeyedStateStore{}, timers: map[int]*operator.TimerStore{}}
 	w.insts[id] = in
 	return in
 }
 
+// c06Wait waits for the instance's background flush/compaction tasks. The task queues of package dkv are
+// process-global: a goroutine of one instance's task group may run a function queued by another instance, and
+// DB.WaitOnTasks of that other instance then races with the task's own Enqueue ("WaitGroup misuse" panic). The harness
+// therefore lets at most one instance have background work at a time: every operation that can start a task (writes,
+// the replay of an open) is followed by this wait. Foreground/background interleavings inside one instance are C07's
+// subject.
 func c06Wait(db *dkv.DB) bool {
 	done := make(chan struct{})
 	go func() {
-		// a flush task enqueues its compaction task when it finishes: wait again after a short pause
-		for i := 0; i < 2; i++ {
-			db.WaitOnTasks()
-			time.Sleep(time.Millisecond)
-		}
+		db.WaitOnTasks()
 		close(done)
 	}()
 	select {
@@ -337,7 +365,7 @@ func runC06(c lib.Case) []string {
 		f := strings.Fields(op)
 		var in *c06Inst
 		switch f[0] {
-		case "put", "del", "settle", "ckpt", "get", "scan", "scanown", "seq":
+		case "put", "del", "settle", "ckpt", "get", "scan", "scanown", "seq", "sput", "sdel", "sget", "tput", "tearliest":
 			in = w.insts[atoi(f[1])]
 			if in == nil {
 				out = append(out, "no-instance")
@@ -356,9 +384,11 @@ func runC06(c lib.Case) []string {
 			out = append(out, "ok")
 		case "put":
 			in.db.Put(lib.UnHex(f[2]), lib.UnHex(f[3]))
+			c06Wait(in.db)
 			out = append(out, "ok")
 		case "del":
 			in.db.Delete(lib.UnHex(f[2]))
+			c06Wait(in.db)
 			out = append(out, "ok")
 		case "settle":
 			if !c06Wait(in.db) {
@@ -400,6 +430,62 @@ func runC06(c lib.Case) []string {
 			out = append(out, c06Scan(in.db, lib.UnHex(f[2]), nil))
 		case "scanown":
 			out = append(out, c06Scan(in.db, nil, in.own.OwnsKey))
+		case "sput", "sdel": // sput id kgc subj ns data val: through the real KeyedStateStore.ApplyMutations
+			kgc, subj := atoi(f[2]), lib.UnHex(f[3])
+			if !in.routed(kgc, subj) {
+				out = append(out, "not-routed")
+				continue
+			}
+			mut := &handlerpb.StateMutation{Mutation: &handlerpb.StateMutation_Delete{Delete: &handlerpb.DeleteMutation{Key: lib.UnHex(f[5])}}}
+			if f[0] == "sput" {
+				mut = &handlerpb.StateMutation{Mutation: &handlerpb.StateMutation_Put{Put: &handlerpb.PutMutation{Key: lib.UnHex(f[5]), Value: lib.UnHex(f[6])}}}
+			}
+			err := in.stateStore(kgc).ApplyMutations(subj, []*handlerpb.StateMutationNamespace{{Namespace: string(lib.UnHex(f[4])), Mutations: []*handlerpb.StateMutation{mut}}})
+			c06Wait(in.db)
+			if err != nil {
+				out = append(out, "err")
+				continue
+			}
+			out = append(out, "ok")
+		case "sget": // sget id kgc subj: what the handler is given (KeyedStateStore.GetState)
+			kgc, subj := atoi(f[2]), lib.UnHex(f[3])
+			if !in.routed(kgc, subj) {
+				out = append(out, "not-routed")
+				continue
+			}
+			nss, err := in.stateStore(kgc).GetState(subj)
+			if err != nil {
+				out = append(out, "err")
+				continue
+			}
+			var parts []string
+			for _, ns := range nss {
+				for _, e := range ns.Entries {
+					parts = append(parts, lib.Hex([]byte(ns.Namespace))+"/"+lib.Hex(e.Key)+"="+lib.Hex(e.Value))
+				}
+			}
+			if len(parts) == 0 {
+				out = append(out, "empty")
+			} else {
+				out = append(out, strings.Join(parts, ","))
+			}
+		case "tput": // tput id kgc subj t: real TimerStore.Put
+			kgc, subj := atoi(f[2]), lib.UnHex(f[3])
+			if !in.routed(kgc, subj) {
+				out = append(out, "not-routed")
+				continue
+			}
+			t, _ := strconv.ParseUint(f[4], 10, 64)
+			in.timerStore(kgc).Put(subj, time.Unix(0, int64(t)))
+			c06Wait(in.db)
+			out = append(out, "ok")
+		case "tearliest": // tearliest id kgc: real TimerStore.GetEarliest over the operator's key groups
+			tm, ok := in.timerStore(atoi(f[2])).GetEarliest()
+			if !ok {
+				out = append(out, "none")
+			} else {
+				out = append(out, fmt.Sprintf("%d %s", uint64(tm.Timestamp.UnixNano()), lib.Hex(tm.Key)))
+			}
 		default:
 			out = append(out, "bad-op")
 		}
@@ -478,6 +564,31 @@ func c06RandPerm(r *lib.Rng, n int) []int {
 	return p
 }
 
+var c06Subjects = [][]byte{[]byte("s0"), []byte("s1"), []byte("s2"), []byte("user-3"), []byte("k4"), {0x00}, {0xff, 0x80}, []byte("s7")}
+
+// c06StoreWrites emits keyed-state mutations and timers for random subject keys, each offered to every instance of the
+// generation: like the router, only the instance whose range holds the subject's key group applies it (the others
+// answer not-routed), so every subject is written by exactly its owner.
+func c06StoreWrites(r *lib.Rng, ops []string, ids []int, kgc, n int, tcount *int) []string {
+	for i := 0; i < n; i++ {
+		sj := lib.Hex(lib.Pick(r, c06Subjects))
+		var op string
+		switch r.Intn(5) {
+		case 0:
+			op = fmt.Sprintf("sdel %%d %d %s %s %s", kgc, sj, lib.Hex([]byte(lib.Pick(r, []string{"", "a", "ns"}))), lib.Hex(lib.Pick(r, [][]byte{{}, {1}, {2, 3}})))
+		case 1:
+			*tcount++
+			op = fmt.Sprintf("tput %%d %d %s %d", kgc, sj, uint64(r.Intn(1<<30))<<8|uint64(*tcount&0xff))
+		default:
+			op = fmt.Sprintf("sput %%d %d %s %s %s %s", kgc, sj, lib.Hex([]byte(lib.Pick(r, []string{"", "a", "ns"}))), lib.Hex(lib.Pick(r, [][]byte{{}, {1}, {2, 3}})), lib.Hex(r.Bytes(r.Range(0, 4))))
+		}
+		for _, id := range ids {
+			ops = append(ops, fmt.Sprintf(op, id))
+		}
+	}
+	return ops
+}
+
 var c06Suffixes = [][]byte{{}, {0x00}, {0x61}, {0x61, 0x62}, {0xff}, {0x61, 0x00}, {0x00, 0x01, 0x02}}
 
 func c06Key(kg int, suffix []byte) []byte {
@@ -494,6 +605,7 @@ type c06Plan struct {
 	target    int
 	chain     int // 0 = none, else operator count of a second rescale
 	nWrites   int
+	tcount    *int // timers written so far in the case (keeps timestamps distinct)
 	l0stack   bool // old instances checkpoint with several overlapping level-0 tables (compaction trigger out of reach)
 }
 
@@ -565,8 +677,13 @@ func c06Observe(ops []string, id int, rg [2]int, kgc int, written map[string]boo
 	for kg := rg[0]; kg < rg[1] && kg < rg[0]+6; kg++ {
 		ops = append(ops, fmt.Sprintf("scan %d %s", id, lib.Hex(c06Key(kg, nil))))
 	}
-	// mechanism detail, after the property-level observations: the instance's sequence number
-	ops = append(ops, fmt.Sprintf("seq %d", id))
+	// what the handler and the timer service see: the operator's own stores over this database
+	if rg[1] > rg[0] {
+		for _, sj := range c06Subjects {
+			ops = append(ops, fmt.Sprintf("sget %d %d %s", id, kgc, lib.Hex(sj)))
+		}
+		ops = append(ops, fmt.Sprintf("tearliest %d %d", id, kgc))
+	}
 	return ops
 }
 
@@ -590,6 +707,13 @@ func c06Rescale(r *lib.Rng, ops []string, p c06Plan, oldIDs []int, oldR [][2]int
 		ops = c06Observe(ops, base+i, nr, p.kgc, written)
 	}
 	// writes after the restore to restored keys and new ones, then observe again (C03 behaviour after restore)
+	newIDs := make([]int, len(newR))
+	for i := range newR {
+		newIDs[i] = base + i
+	}
+	if p.tcount != nil {
+		ops = c06StoreWrites(r, ops, newIDs, p.kgc, r.Range(1, 5), p.tcount)
+	}
 	for i, nr := range newR {
 		ops = c06Writes(r, ops, base+i, nr, p.nWrites/2+1, written)
 		if r.Chance(1, 2) {
@@ -619,6 +743,9 @@ func c06GenCase(r *lib.Rng, p c06Plan) lib.Case {
 			ops = c06Writes(r, ops, j, rg, p.nWrites, written)
 		}
 	}
+	tcount := 0
+	p.tcount = &tcount
+	ops = c06StoreWrites(r, ops, oldIDs, p.kgc, r.Range(2, 8), p.tcount)
 	for j := range oldR {
 		ops = append(ops, fmt.Sprintf("ckpt %d 1", j))
 	}
@@ -636,6 +763,24 @@ func c06GenCase(r *lib.Rng, p c06Plan) lib.Case {
 		// whether a background compaction has already rewritten it. Without flushes the layout is the restored one.
 		p.memNew = 1 << 20
 		ops, _ = c06Rescale(r, ops, p, ids, newR, c06RandPerm(r, p.n), 2, p.chain, 200, written)
+	}
+	// mechanism detail (sequence numbers) only after every property-level observation of the case: a divergence there
+	// must not hide a later wrong read
+	seen := map[string]bool{}
+	for _, o := range ops {
+		f := strings.Fields(o)
+		if (f[0] == "open" || f[0] == "new") && !seen[f[1]] {
+			seen[f[1]] = true
+		}
+	}
+	var ids []int
+	for id := range seen {
+		v, _ := strconv.Atoi(id)
+		ids = append(ids, v)
+	}
+	slices.Sort(ids)
+	for _, id := range ids {
+		ops = append(ops, fmt.Sprintf("seq %d", id))
 	}
 	c.Ops = ops
 	c.Tags = []string{fmt.Sprintf("m%d", p.m), fmt.Sprintf("n%d", p.n)}
@@ -684,8 +829,8 @@ func propC06() *lib.Prop {
 	return &lib.Prop{
 		ID:       "C06",
 		FeedImpl: true,
-		Corr:     "Model/Rescale.lean (assignRanges, openDB over Model/Lsm.lean reads) ↔ partitioning.AssignRanges, jobs.Assembly.Deploy, recovery.LoadCheckpointList, dkv.DB.Start with OperatorPartition ownership",
-		Rule:     "cases = (a) AssignRanges/Assembly.Deploy on every permutation of the recorded checkpoints for M,N ≤ 5; (b) M real DKV instances (state in memory, level 0, compacted) checkpointed, restored into N instances with OperatorPartition ownership in a permuted handle order, full owned scan + per-key-group scans + gets, then writes/deletes after the restore and the same observations; optionally a second rescale of the restored instances. non-trivial = a DKV case in which some new instance was opened from ≥ 2 handles (plus the scale-out witness of D6)",
+		Corr:     "Model/Rescale.lean (assignRanges, openDB, getR/scanR over Model/Lsm.lean) ↔ partitioning.AssignRanges, jobs.Assembly.Deploy, recovery.LoadCheckpointList, dkv.DB.Start with OperatorPartition ownership, LevelList.Get/AllTablesForPrefix, operator.KeyedStateStore.GetState/ApplyMutations, operator.TimerStore.Put/GetEarliest",
+		Rule:     "cases = (a) AssignRanges/Assembly.Deploy on every permutation of the recorded checkpoints for M,N ≤ 5; (b) M real DKV instances (state in memory, level 0, compacted) checkpointed, restored into N instances with OperatorPartition ownership in a permuted handle order, full owned scan + per-key-group scans + gets + the operator's own reads (real KeyedStateStore.GetState for every subject key, real TimerStore.GetEarliest) after keyed-state mutations and timers were offered to every instance and applied only by the routed one, then writes/deletes/mutations after the restore and the same observations; optionally a second rescale of the restored instances. non-trivial = a DKV case in which some new instance was opened from ≥ 2 handles (plus the scale-out witness of D6)",
 		NumCases: func(tier string) int {
 			if tier == "thorough" {
 				return 1500
@@ -742,12 +887,15 @@ func propC06() *lib.Prop {
 					"put 1 " + lib.Hex(c06Key(0x90, []byte("q"))) + " 05",
 					"ckpt 0 1", "ckpt 1 1",
 					"open 100 0 256 1048576 1048576 " + order,
-					"get 100 " + kMid, "get 100 " + kDel, "get 100 " + kLow, "get 100 " + kHi, "scanown 100", "seq 100",
+					"get 100 " + kMid, "get 100 " + kDel, "get 100 " + kLow, "get 100 " + kHi, "scanown 100",
 					// 2 -> 3: the middle operator [86,171) restores both handles
 					"open 101 86 171 1048576 1048576 " + order,
 					"get 101 " + kHi, "scanown 101",
 					"open 102 0 86 1048576 1048576 0:1",
 					"get 102 " + kMid, "get 102 " + kDel, "get 102 " + kLow, "scanown 102",
+					// writes after the multi-handle restore must win in scans (sequence number above both sources)
+					"put 100 " + kMid + " 06", "scan 100 " + lib.Hex(c06Key(0x20, nil)), "get 100 " + kMid,
+					"seq 100", "seq 101", "seq 102",
 				}}
 				cs = append(cs, l0c)
 			}
